@@ -696,7 +696,7 @@ func TestC07(t *testing.T) {
 }
 
 func TestC08(t *testing.T) {
-	rec := ev.New("C08", ruleValues+"valid encodings are mutated (truncate at an offset, overwrite a byte with {00,7f,80,ff,b^1,b^2,b^4,b^80}, inflate a length prefix to {remaining+1, 2^31-1, 2^31, 2^32, 2^40, 2^63, 2^64-1}, change a key's wire type incl. groups at the top level or inside a nested payload / map entry, insert a field with an illegal key (number 0, number >= 2^29, wire type 6 / 7) and a well-formed payload at a field boundary, append garbage, a varint value with bits beyond 32 set, hostile length for an existing number, plain random bytes); messages nested 3000 levels deep through every self-recursive field; the quick tier also truncates at every offset and overwrites every byte of the sweep encodings of each type; 1 in 4 inputs (and the systematic truncations) are decoded into a receiver that already holds another value; oracle: returns (no panic), bytes allocated <= 4 KiB + len*(576+2*S), and when both decoders accept the messages are equal; non-trivial = the input is not a valid canonical encoding; distinct by (type, bytes)")
+	rec := ev.New("C08", ruleValues+"valid encodings are mutated (truncate at an offset, overwrite a byte with {00,7f,80,ff,b^1,b^2,b^4,b^80}, inflate a length prefix to {remaining+1, 2^31-1, 2^31, 2^32, 2^40, 2^63, 2^64-1}, change a key's wire type incl. groups at the top level or inside a nested payload / map entry, insert a field with an illegal key (number 0, number >= 2^29, wire type 6 / 7) and a well-formed payload at a field boundary, append garbage, a varint value with bits beyond 32 set, hostile length for an existing number, plain random bytes); messages nested 3000 levels deep through every self-recursive field; the quick tier also truncates at every offset and overwrites every byte of the sweep encodings of each type, and gives the key and value field of every map entry in up to three sweep encodings per type each of the other wire types; 1 in 4 inputs (and the systematic truncations) are decoded into a receiver that already holds another value; oracle: returns (no panic), bytes allocated <= 4 KiB + len*(576+2*S), and when both decoders accept the messages are equal; non-trivial = the input is not a valid canonical encoding; distinct by (type, bytes)")
 	defer rec.Write()
 	useRecorder(rec)
 	defer func() { t.Log(rec.Summary()); fmt.Print(rec.SurveyReport()) }()
@@ -746,6 +746,52 @@ func TestC08(t *testing.T) {
 					mb[pos] = nb
 					one(t, &BCase{Type: mt.Key(), Bytes: mb, Note: "overwrite-all"}, "systematic/overwrite")
 				}
+			}
+		}
+	}
+	// systematic: in up to three sweep encodings per type that hold map entries, the key of every entry's key field
+	// and value field is given each of the other wire types (same key size, so no length has to be re-written)
+	for _, mt := range mine {
+		done := 0
+		for _, v := range sweepValues(mt.Desc, mt.Info.Runtime) {
+			if done >= 3 {
+				break
+			}
+			_, b := canon(v)
+			if len(b) > 400 {
+				continue
+			}
+			fs, err := refwire.Walk(b)
+			if err != nil {
+				continue
+			}
+			hit := false
+			for _, f := range fs {
+				fd := mt.Desc.Fields().ByNumber(protoreflect.FieldNumber(f.Num))
+				if fd == nil || !fd.IsMap() || f.WT != refwire.WTLen {
+					continue
+				}
+				es, err := refwire.Walk(b[f.PayloadStart:f.End])
+				if err != nil {
+					continue
+				}
+				for _, e := range es {
+					if e.Num != 1 && e.Num != 2 {
+						continue
+					}
+					for _, nwt := range []int{0, 1, 2, 5} {
+						if nwt == e.WT {
+							continue
+						}
+						mb := append([]byte{}, b...)
+						mb[f.PayloadStart+e.KeyStart] = byte(e.Num<<3 | nwt)
+						one(t, &BCase{Type: mt.Key(), Bytes: mb, Note: "map-entry-rewire"}, "systematic/map-entry-rewire")
+						hit = true
+					}
+				}
+			}
+			if hit {
+				done++
 			}
 		}
 	}
